@@ -364,13 +364,13 @@ func (fs *fsMutable) Rename(ctx context.Context, op *fuseops.RenameOp) (err erro
 	if !found {
 		return jfuse.ENOENT
 	}
-	newChild, found, _ := fs.lookup(op.NewParent, op.NewName)
+	_, found, _ = fs.lookup(op.NewParent, op.NewName)
 	if found {
-		if newChild.mode.IsDir() {
-			return jfuse.ENOSYS
+		// The new child is replaced. A directory can only be replaced when empty:
+		// in that case nothing is changed.
+		if err = fs.deleteNSEntry(op.NewParent, op.NewName); err != nil {
+			return err
 		}
-		// Delete new child, ignore if not present
-		_ = fs.deleteNSEntry(op.NewParent, op.NewName)
 	}
 
 	// Insert iNode into new readDir and lookup and remove from old.
